@@ -276,6 +276,8 @@ def run(ctx):
                 for q in ipaths(F, F.fns[fc[1]], stop=lambda n_: False, depth=1):
                     lt = [lt_truth(a, lambda z: z == ("param", 3), lambda z: z == ("param", 2)) for a in q.atoms]
                     lt = [x for x in lt if x is not None]
+                    if not lt:
+                        lt = [x for x in [le_truth(a, lambda z: z == ("param", 3), lambda z: z == ("param", 2)) for a in q.atoms] if x is not None]
                     rows_.add((lt[0] if lt else None, q.ret))
                 is_min = rows_ == {(True, ("param", 3)), (False, ("param", 2))}
             okm = maps_get and is_min and init == ("const", 255, "u8") and strip_site(r) == strip_site(Lg.extra["result"])
@@ -285,7 +287,7 @@ def run(ctx):
             okb = True
             for q in Lg.bodies:
                 gs = q.calls({get_fn.name})
-                lts = [a for a in q.atoms if a[0] == "bool" and a[1][0] == "binop" and a[1][1] == "Lt" and len(gs) == 1 and strip_site(a[1][2]) == strip_site(gs[0].res)]
+                lts = [a for a in q.atoms if a[0] == "bool" and a[1][0] == "binop" and a[1][1] in ("Lt", "Le") and len(gs) == 1 and strip_site(a[1][2]) == strip_site(gs[0].res)]     # (`<=` overwrites with an equal value: the same minimum)
                 if len(gs) != 1 or len(lts) != 1:
                     okb = False
                     continue
@@ -309,7 +311,7 @@ def run(ctx):
                 for l_, v_ in q.env.items():
                     if strip_site(v_) == strip_site(gs[0].res) and p.locals[l_]["ty"] == "u8" and l_ != gs[0].t["dest"]["l"]:
                         cur = p.origin_local(l_)
-                        lt = [a for a in q.atoms if a[0] == "bool" and a[2] and a[1][0] == "binop" and a[1][1] == "Lt" and strip_site(a[1][2]) == strip_site(gs[0].res)]
+                        lt = [a for a in q.atoms if a[0] == "bool" and a[2] and a[1][0] == "binop" and a[1][1] in ("Lt", "Le") and strip_site(a[1][2]) == strip_site(gs[0].res)]
                         if lt and mentions(cur, lambda s_: s_ == ("const", 255, "u8")):
                             folds.add(l_)
             okm = okf and len(folds) == 1 and strip_site(r) == strip_site(p.origin_local(list(folds)[0]))
